@@ -34,9 +34,17 @@ type c12Backend struct {
 
 func c12Backends() []c12Backend {
 	return []c12Backend{
-		{"spirv", false, func(m *ir.Module) ([]byte, error) { return naga.GenerateSPIRV(m, spirv.Options{Version: spirv.Version1_3}) }},
-		{"hlsl", false, func(m *ir.Module) ([]byte, error) { s, _, err := hlsl.Compile(m, hlsl.DefaultOptions()); return []byte(s), err }},
-		{"msl", false, func(m *ir.Module) ([]byte, error) { s, _, err := msl.Compile(m, msl.DefaultOptions()); return []byte(s), err }},
+		{"spirv", false, func(m *ir.Module) ([]byte, error) {
+			return naga.GenerateSPIRV(m, spirv.Options{Version: spirv.Version1_3})
+		}},
+		{"hlsl", false, func(m *ir.Module) ([]byte, error) {
+			s, _, err := hlsl.Compile(m, hlsl.DefaultOptions())
+			return []byte(s), err
+		}},
+		{"msl", false, func(m *ir.Module) ([]byte, error) {
+			s, _, err := msl.Compile(m, msl.DefaultOptions())
+			return []byte(s), err
+		}},
 		{"glsl", false, func(m *ir.Module) ([]byte, error) {
 			o := glsl.DefaultOptions()
 			o.LangVersion = glsl.Version{Major: 4, Minor: 50}
